@@ -321,10 +321,24 @@ want_accept = lambda e: e["act"].get("v") == "Accept"
 
 # ----------------------------------------------------------------------------- C01
 
+ENV_ALL = {"restart", "upgrade", "future", "legacyonly"}
+
+
+def want_env_or_accept(e):
+    return e["act"].get("a") == "env" or want_accept(e)
+
+
+def env_plan(tier, **kw):
+    """the model with the environment steps of Witness.tla switched on (restart, upgrade of the store, a stored checkpoint left by an earlier
+    incarnation of the witness): TLC checks every property across them; walks that take them run on the in-memory store and on file-backed SQLite"""
+    c = H("quick", EnvActions=ENV_ALL, BadKinds={"flip", "random"}, BadAuths={"badsig", "peercp"}, **kw)
+    return Plan("MC_Witness(hist + environment steps)", c, edges=False, nwalks=150 if tier == "quick" else 1200, depth=24, stores=("inmem", "sqlfile"), embeds=("id",), want=want_env_or_accept)
+
+
 def c01_plans(tier):
     if tier == "quick":
-        return [Plan("MC_Witness(hist,0..3)", H(tier), nwalks=300, depth=25, stores=Q_ST, embeds=("id", "huge"), want=want_accept)]
-    return [Plan("MC_Witness(hist,0..4,2 forks)", H(tier), nwalks=3000, depth=40, stores=T_ST, embeds=T_EMB, want=want_accept)]
+        return [Plan("MC_Witness(hist,0..3)", H(tier), nwalks=300, depth=25, stores=Q_ST, embeds=("id", "huge"), want=want_accept), env_plan(tier)]
+    return [Plan("MC_Witness(hist,0..4,2 forks)", H(tier), nwalks=3000, depth=40, stores=T_ST, embeds=T_EMB, want=want_accept), env_plan(tier)]
 
 
 def c01_concurrent(work, rep, tier, seed):
@@ -368,6 +382,7 @@ def c03_plans(tier):
           Plan("MC_Witness2(shared key)", W2(tier, BadAuths=ALL_AUTH), keyof=KEYOF, stores=("inmem", "sqlfile"), embeds=("id",), max_edges=None if tier != "quick" else 20000)]
     if tier != "quick":
         ps.append(Plan("MC_Witness(pad)", PAD(tier, 2), stores=("inmem", "sqlmem"), embeds=("id",)))
+    ps.append(env_plan(tier))
     return ps
 
 
@@ -427,6 +442,7 @@ def c04_plans(tier):
           Plan("MC_Witness(pad,1 key)", PAD(tier, 1), stores=("inmem",), embeds=("id",) if tier == "quick" else ("id", "huge"), http=False, nwalks=50, depth=12, reads=True, want=want_accept)]
     if tier != "quick":
         ps.append(Plan("MC_Witness(hist)", H("quick"), stores=("sqlfile",), embeds=("pow2",), http=True, nwalks=300, depth=20, reads=True, want=want_accept, edges=False))
+    ps.append(env_plan(tier))
     return ps
 
 
